@@ -9,6 +9,7 @@
 -/
 import SpecsModel.Lemmas.EWorldAccept
 import SpecsModel.Lemmas.EntSpecFacts
+import SpecsModel.Props.WorldEnt
 namespace SpecsModel.C01
 open SpecsModel Alloc
 
@@ -114,5 +115,15 @@ theorem no_panic (ops : List EOp) : ∀ x, x ∈ (EWorld.run ops).2 → resShape
 /-- Non-vacuity: a history in which an index is reused while an old handle is still around. -/
 example : (EWorld.run [.createNow false, .delNow 0, .createAtomic false, .merge, .alive 0, .alive 1]).2.map (·.2)
     = [.ent ⟨0, 1⟩, .kill .ok, .ent ⟨0, 2⟩, .unit, .bool false, .bool true] := by decide +kernel
+
+
+/-- **C01 for the full world model**: in every world reachable by any history that also registers
+    storages, inserts / removes components, runs lazy actions with nested scripts and restricted joins,
+    two logged handles that are both reported alive and share an index are equal. -/
+theorem world_no_shared_index (fuel : Nat) (ops : List WOp) (e₁ e₂ : Entity)
+    (h₁ : e₁ ∈ (WorldEnt.after fuel ops).ent.log.toList) (h₂ : e₂ ∈ (WorldEnt.after fuel ops).ent.log.toList)
+    (a₁ : (WorldEnt.after fuel ops).ent.alloc.isAlive e₁ = true)
+    (a₂ : (WorldEnt.after fuel ops).ent.alloc.isAlive e₂ = true) (hid : e₁.id = e₂.id) : e₁ = e₂ :=
+  WorldEnt.no_shared_index fuel ops e₁ e₂ h₁ h₂ a₁ a₂ hid
 
 end SpecsModel.C01
